@@ -21,7 +21,7 @@ import (
 type Mock struct {
 	common.LedgerState
 	Utxos map[string]common.Utxo // key = txid bytes
-	Pools map[string]int         // operator hash -> 0 unregistered / 1 registered / 2 error
+	Pools map[string]int         // operator hash -> pool oracle state (see PoolNew / PoolCurrentState)
 	Calls []string
 }
 
@@ -36,12 +36,35 @@ func (m *Mock) UtxoById(in common.TransactionInput) (common.Utxo, error) {
 	return u, nil
 }
 
+// Pool oracle states: every combination PoolCurrentState can return.
+const (
+	PoolUnregistered      = 0 // (nil, nil, nil)
+	PoolRegistered        = 1 // (cert, nil, nil)
+	PoolLookupError       = 2 // (nil, nil, err)
+	PoolRetiringFuture    = 3 // (cert, &epoch in the future, nil)
+	PoolRetiringNowOrPast = 4 // (cert, &0, nil): retirement epoch already reached but still reported registered
+	PoolUnregStaleEpoch   = 5 // (nil, &epoch, nil): no live registration, a retirement epoch left behind
+)
+
+// PoolNew: the ledger state has no live registration for the operator, so a
+// registration certificate is a NEW registration (pays the deposit).  A
+// registered pool - retiring or not - re-registers without a deposit.
+func PoolNew(state int) bool { return state == PoolUnregistered || state == PoolUnregStaleEpoch }
+
 func (m *Mock) PoolCurrentState(h common.PoolKeyHash) (*common.PoolRegistrationCertificate, *uint64, error) {
+	future, past := uint64(1)<<40, uint64(0)
+	reg := &common.PoolRegistrationCertificate{Operator: h}
 	switch m.Pools[string(h[:])] {
-	case 1:
-		return &common.PoolRegistrationCertificate{Operator: h}, nil, nil
-	case 2:
+	case PoolRegistered:
+		return reg, nil, nil
+	case PoolLookupError:
 		return nil, nil, ErrPool
+	case PoolRetiringFuture:
+		return reg, &future, nil
+	case PoolRetiringNowOrPast:
+		return reg, &past, nil
+	case PoolUnregStaleEpoch:
+		return nil, &future, nil
 	}
 	return nil, nil, nil
 }
@@ -101,6 +124,10 @@ func (t *Tx) MockState() (*Mock, error) {
 	}
 	for i, r := range t.RefInputs {
 		if !r.Resolved {
+			continue
+		}
+		if r.Script == 5 { // the state returns a Utxo without an Output
+			m.Utxos[string(RefTxId(i))] = common.Utxo{}
 			continue
 		}
 		raw := OutputItem(Babbage, 90+i, Value{Coin: 2000000}, false, r.Script).Enc()
